@@ -1435,7 +1435,7 @@ class Covout:
         if self._interactions:
             for k, v in self._interactions.items():
                 self._interactions[k] = v + self.sigma * np.random.randn(1)[0]
-            tokens = ["%s=%.4f" % ("+".join(k), v + self.baseline) for k, v in self._interactions.items()]  # nb. the cached interactions are stored relative to baseline
+            tokens = ["%s=%r" % ("+".join(k), float(v + self.baseline)) for k, v in self._interactions.items()]  # nb. the cached interactions are stored relative to baseline. Write all digits, so that the text carries the same values as the cache
             self.imp_interaction = ",".join(tokens)
 
         self.update_outcomes()
